@@ -47,6 +47,27 @@ def judge(case):
     alg, N = case["o_alg"], case["n_o"]
     r = radii_of(case)
     T = len(r)
+    warm = case.get("warm")
+    if warm:
+        # what the process did before: the Cartesian variant of the very same direction / radial grids (as a position grid
+        # or inside a full grid) was asked for its arrays. It is not judged here (C06 does that); the default position grid
+        # queried afterwards must not depend on it.
+        try:
+            with quiet():
+                if warm == "cartesian_position_grid":
+                    other = position_grid(f"{alg}_{N}", case["t_text"], cartesian=True)
+                    calls = {"volumes": other.get_all_position_volumes, "adjacency": other.get_adjacency_of_position_grid,
+                             "borders": other.get_borders_of_position_grid, "distances": other.get_distances_of_position_grid}
+                else:
+                    from vlib.grids import full_grid
+                    other = full_grid("zero4D_1" if warm == "cartesian_full_grid_1" else "cube4D_4", f"{alg}_{N}",
+                                      case["t_text"], cartesian=True)
+                    calls = {"volumes": other.get_total_volumes, "adjacency": other.get_full_adjacency,
+                             "borders": other.get_full_borders, "distances": other.get_full_distances}
+                for name in case.get("order") or []:
+                    calls[name]()
+        except Exception:
+            pass
     try:
         pg = position_grid(f"{alg}_{N}", case["t_text"])
         getters = {"volumes": lambda: np.asarray(pg.get_all_position_volumes()),
@@ -184,7 +205,10 @@ def _shard(arg):
             stop = a + step * T - step / 2  # exactly T points, far from the floating-point boundary
             args = [dec(a), dec(stop), dec(step)]
             text = f"range({args[0]}, {args[1]}, {args[2]})"
-        return {"o_alg": alg, "n_o": n_o, "t_kind": kind, "t_args": args, "t_text": text,
+        warm = None
+        if T <= 6 and n_o <= 40:
+            warm = draw(st.sampled_from([None, None, None, "cartesian_position_grid", "cartesian_full_grid_1", "cartesian_full_grid_4"]))
+        return {"o_alg": alg, "n_o": n_o, "t_kind": kind, "t_args": args, "t_text": text, "warm": warm,
                 "order": list(draw(st.permutations(["volumes", "adjacency", "borders", "distances"])))}
 
     def builder(res, fail):
@@ -197,7 +221,8 @@ def _shard(arg):
             levels = {"ico": (12, 42, 162), "cube3D": (8, 26, 98)}
             partial = case["n_o"] not in levels.get(case["o_alg"], ())
             res.case(sample=case, nontrivial=uneq or partial, key=case,
-                     classes=[f"o={case['o_alg']}", f"t={case['t_kind']}", f"T={len(r)}" if len(r) <= 6 else "T>6"] + (["unequal_increments"] if uneq else []))
+                     classes=[f"o={case['o_alg']}", f"t={case['t_kind']}", f"T={len(r)}" if len(r) <= 6 else "T>6"] + (["unequal_increments"] if uneq else [])
+                     + (["after_cartesian_variant_of_same_grids"] if case.get("warm") else []))
             if msgs:
                 fail(case, "; ".join(msgs))
         return test
@@ -218,7 +243,7 @@ def run(tier):
     total, max_no = (960, 60) if tier == "quick" else (4800, 200)
     res = merge_results(pmap(_shard, [(s, total // 16, max_no) for s in range(16)]))
     rule = (f"Hypothesis: direction grid ico/cube3D/randomS with N in 4..{max_no}; radial grid with T in 2..6 (linspace/range also 7..64 shells) strictly increasing "
-            f"positive radii as unsorted list / tuple (free, nearly regular with steps differing by 1e-6..1e-3 nm, or tiny radii), linspace or range text; the four getters called in a generated order and then once more; every cell and every pair "
+            f"positive radii as unsorted list / tuple (free, nearly regular with steps differing by 1e-6..1e-3 nm, or tiny radii), linspace or range text; the four getters called in a generated order and then once more; in about a third of the small cases the Cartesian variant of the same grids (position grid, or inside a full grid) is queried first in the same process; every cell and every pair "
             f"of cells compared (dense n x n, n = N*T). Non-trivial = T>=3 with unequal increments, or N not a complete "
             f"subdivision level; distinct = distinct (direction grid, radial text).")
     return res, rule, {"assumptions": ["area, arc and angle on the unit sphere come from the independent clipping oracle; pairs whose "
